@@ -101,8 +101,17 @@ func stringToDFA(value string) *auto.DFA {
 	start := auto.State(0)
 	d := auto.NewDFA(start, nil)
 
+	// A backslash in a string value escapes the character after it (as in \" or \\), which stands for itself.
+	escaped := false
+
 	curr, next := start, start+1
 	for _, r := range value {
+		if r == '\\' && !escaped {
+			escaped = true
+			continue
+		}
+
+		escaped = false
 		d.Add(curr, auto.Symbol(r), next)
 		curr, next = next, next+1
 	}
